@@ -453,7 +453,7 @@ impl<'a> Sc<'a> {
                 }
                 done!()
             }
-            Op::Fence { .. } | Op::Yield | Op::SkipBranch | Op::DropGuardStore { .. } => done!(),
+            Op::Fence { .. } | Op::Yield | Op::SkipBranch | Op::DropGuardStore { .. } | Op::LoopCounter => done!(),
             Op::Await { a, v, .. } => {
                 if s.atom[a as usize] == v as i64 {
                     done!()
